@@ -303,3 +303,31 @@ fn k4_after_wraps_inner_before_error() {
         assert!(same(&out, !bf && !sf, sv), "C19: untouched result passes through");
     }
 }
+
+/// C19: a chain of three built through the public API runs in chained order (then appends at
+/// the end), threads the context, and stops at the first failure.
+#[kani::proof]
+#[kani::unwind(8)]
+fn k4_chain_of_three_order() {
+    let log = Log::new();
+    let m0: u64 = kani::any();
+    let req: u32 = kani::any();
+    let (b1, b2, b3) = (any_b(1, &log), any_b(2, &log), any_b(3, &log));
+    let (f1, m1, f2, m2, f3, m3) = (b1.fail, b1.new_marker, b2.fail, b2.new_marker, b3.fail, b3.new_marker);
+    let mut chain = before().then(b1).then(b2).then(b3);
+    let mut ctx = any_ctx(m0);
+    let out = run(BeforeRequest::<u32>::before(&mut chain, &mut ctx, &req));
+    let l = log.borrow();
+    assert!(l.evs[0] == Some(Ev::Before(1, m0)), "C19: first chained hook first");
+    if !f1 {
+        assert!(l.evs[1] == Some(Ev::Before(2, m1)), "C19: second chained hook second, seeing the first's change");
+        if !f2 {
+            assert!(l.n == 3 && l.evs[2] == Some(Ev::Before(3, m2)), "C19: third chained hook third, seeing the second's change");
+            assert!(out.is_err() == f3 && marker(&ctx) == m3, "C19: result of the last hook");
+        } else {
+            assert!(l.n == 2 && out.is_err(), "C19: second failure stops the chain");
+        }
+    } else {
+        assert!(l.n == 1 && out.is_err(), "C19: first failure stops the chain");
+    }
+}
